@@ -32,7 +32,7 @@ def run(ctx, pid, kinds, n_quick, n_thorough, polite=60, extra_assumptions=()):
         ctx.broken_build("Props/%s.v does not compile" % pid, rep["log"])
     ok, binp, log = V.build_harness("sup")
     results, stats = [], {}
-    rejected, bad, wcodes = [], [], []
+    rejected, bad, wcodes, badw = [], [], [], {}
     if not ok:
         ctx.broken_build("harness-build(-tags verif) against current /repo tree (a missing trace point hook shows up here)", log)
     else:
@@ -67,6 +67,8 @@ def run(ctx, pid, kinds, n_quick, n_thorough, polite=60, extra_assumptions=()):
             results += json.load(open(d / "cases_SUP.json"))
             rejected += [base + i for i in res["r_rejected"]]
             bad += [base + i for i in res[key]]
+            for i, w in zip(res[key], res.get("r_badw_" + pid, [])):
+                badw[base + i] = w
             wcodes += res["r_windows"]
             if ctx.replay:
                 break
@@ -74,7 +76,8 @@ def run(ctx, pid, kinds, n_quick, n_thorough, polite=60, extra_assumptions=()):
     crashed = [i for i, r in enumerate(results) if r.get("crashed")]
     unexplained, explained = [], {}
     for i in bad:
-        wn = win_names(wcodes[i]) if i < len(wcodes) else []
+        # only windows the history went through BEFORE the violating event can explain the violation
+        wn = win_names(badw[i]) if i in badw else (win_names(wcodes[i]) if i < len(wcodes) else [])
         hit = [w for w in wn if ctx.is_known("window:" + w)]
         if hit:
             explained.setdefault(hit[0], []).append(i)
@@ -85,7 +88,7 @@ def run(ctx, pid, kinds, n_quick, n_thorough, polite=60, extra_assumptions=()):
         r = results[i]
         sc = dict(r["scenario"], choices=r.get("choices", []))
         return {"scenario": sc, "scenarios": [sc], "windows": win_names(wcodes[i]) if i < len(wcodes) else [],
-                "events_tail": r["events"][-60:], "n_events": len(r["events"])}
+                "events_tail": (r.get("events") or [])[-60:], "n_events": len(r.get("events") or [])}
 
     if unexplained:
         i = unexplained[0]
@@ -103,14 +106,43 @@ def run(ctx, pid, kinds, n_quick, n_thorough, polite=60, extra_assumptions=()):
                           % (results[i]["scenario"]["kind"], msg[:200]))
         else:
             ctx.known_or_violation(key, replay_obj(i), "supervisor crash: " + msg[:120])
-    if rejected and not unexplained:
+    # ---- liveness at quiescence (C03: a shutdown call never returns; C04: Run() / an instance waits for ever
+    #      although no command is alive).  Decided by the scheduler: nothing enabled, something unfinished.
+    hangs = []
+    if pid in ("C03", "C04"):
+        for i, r in enumerate(results):
+            if not r.get("quiescent") or r.get("alive_at_end"):
+                continue
+            bi, bt = r.get("blocked_insts") or [], r.get("blocked_threads") or []
+            calls = r["scenario"]["calls"]
+            sd_blocked = [c for c in bt if c < len(calls) and calls[c]["op"] == "shutdown"]
+            if (pid == "C04" and (bi or bt)) or (pid == "C03" and sd_blocked):
+                hangs.append(i)
+    hang_unexpl = []
+    for i in hangs:
+        wn = win_names(wcodes[i]) if i < len(wcodes) else []
+        hit = [w for w in wn if ctx.is_known("window:" + w)]
+        if hit:
+            explained.setdefault(hit[0], []).append(i)
+            ctx.known_or_violation("window:" + hit[0], replay_obj(i), "%s: blocked for ever at quiescence in the %s window" % (pid, hit[0]))
+        else:
+            hang_unexpl.append(i)
+    if hang_unexpl:
+        i = hang_unexpl[0]
+        r = results[i]
+        ctx.violation(dict(replay_obj(i), blocked_instances=[r["inst_names"].get(str(k), k) for k in (r.get("blocked_insts") or [])],
+                           blocked_calls=[r["scenario"]["calls"][c] for c in (r.get("blocked_threads") or []) if c < len(r["scenario"]["calls"])],
+                           hanging_histories=hang_unexpl[:50]),
+                      "%s: at quiescence (nothing enabled, no command alive) %d histories have unfinished instances / calls: %s never returns or an instance waits for ever"
+                      % (pid, len(hang_unexpl), "a shutdown call" if pid == "C03" else "Run()"))
+    if rejected and not unexplained and not hang_unexpl:
         i = rejected[0]
         ctx.violation(dict(replay_obj(i), rejected_histories=rejected[:50], correspondence="corr_Sup (Sup.Model.accept on the recorded history)",
                            theorems_resting_on_it=rep["theorems"]),
                       "implementation left the Sup model on %d histories (correspondence corr_Sup broken) but the %s monitor found no failing history outside the known windows"
                       % (len(rejected), pid), no_input=True)
     # ---- evidence
-    nontriv = [r for r in results if len(r.get("events", [])) >= 30]
+    nontriv = [r for r in results if len(r.get("events") or []) >= 30]
     distinct = len({json.dumps(r["scenario"]["procs"], sort_keys=True) + json.dumps(r.get("choices")) for r in nontriv})
     sample = []
     for r in results[:400]:
@@ -131,6 +163,7 @@ def run(ctx, pid, kinds, n_quick, n_thorough, polite=60, extra_assumptions=()):
         "traces_validated_against_impl": len(results) - len(rejected) - len(crashed),
         "histories_rejected_by_model": len(rejected),
         "monitor_failures": len(bad), "monitor_failures_outside_windows": len(unexplained),
+        "quiescent_histories": sum(1 for r in results if r.get("quiescent")), "hangs_at_quiescence": len(hangs),
         "histories_through_known_windows": win_hist,
         "harness_stats": stats,
         "exhaustive": False,
